@@ -71,6 +71,9 @@ fn judge(spec: &JobSpec, r: &JobResult, ref_ok: bool) -> (Option<(String, String
         Outcome::Hang { kind, site } => {
             if kind == "lexer" {
                 (Some((format!("hang(lexer)@{}", site), format!("parser loop: one Lexer exceeded its input-proportional budget of 4096*(len+64) operations in {}", site))), "violation")
+            } else if kind == "paths" {
+                // the stylesheet has no loop of its own inside one cartesian product: a verdict for any text
+                (Some((format!("hang(paths)@{}", site), format!("the extension algorithm built more than {} paths ({}) while the stylesheet itself had executed fewer than 10^5 statements: combinatorial blow-up, the compilation would run for minutes and exhaust memory", crate::job::PATHS_FUEL, site))), "violation")
             } else if kind == "depth" {
                 // only ever armed for corrupted text
                 (None, "inconclusive")
